@@ -1,4 +1,36 @@
-(* C08 — theorems in progress; this file is replaced as they are proved *)
-From AB Require Import Check.WorldCheck.
-Theorem c08_placeholder : True. Proof. exact I. Qed.
-Print Assumptions c08_placeholder.
+(* C08 — the access middleware admits a request only when its requirements are met. *)
+From AB Require Import World.Handlers Proofs.MonadInv Proofs.Gate Proofs.Misc Proofs.HandlerEvents Proofs.EvLogic Proofs.Neutral.
+
+(* If the middleware lets the wrapped handler run, then: the full-auth / 2FA requirements hold
+   of the session, a user is in the request context, and — when none was cached before — it is
+   the record storage holds under the session's user id (which is non-empty); the middleware
+   itself wrote nothing and changed no client state.  For every requirement combination,
+   refusal mode, mount-path setting, session, storage and fault oracle. *)
+Theorem c08_gate_admits : forall E mp full tf fr h h',
+  auth_middleware E mp full tf fr h = (Ok true, h') ->
+  reqs_ok E full tf = true /\
+  (exists u, h_cuser h' = Some u) /\
+  (h_cuser h = None -> h_cpid h = None ->
+     bempty (aget k_uid (e_sess E)) = false /\
+     exists u, ulookup (aget k_uid (e_sess E)) (s_users (h_st h)) = Some u /\ h_cuser h' = Some u) /\
+  h_sev h' = h_sev h /\ h_cev h' = h_cev h /\ h_out h' = h_out h /\ h_st h' = h_st h.
+Proof. exact auth_middleware_admits. Qed.
+Print Assumptions c08_gate_admits.
+
+(* whatever it does (admit, refuse, fail) it never touches the session's user identity and
+   never panics *)
+Theorem c08_gate_neutral : forall E mp full tf fr,
+  evs_all sess_neutral any_ev (auth_middleware E mp full tf fr).
+Proof. exact neutral_auth_middleware. Qed.
+Print Assumptions c08_gate_neutral.
+
+Theorem c08_gate_no_panic : forall E mp full tf fr, np (auth_middleware E mp full tf fr).
+Proof. exact np_auth_middleware. Qed.
+Print Assumptions c08_gate_no_panic.
+
+(* the redir parameter of the login redirect decodes back to exactly the original path and
+   query: for ALL byte strings *)
+Theorem c08_redirect_target_roundtrip : forall p : bytes,
+  Base.Text.query_unescape (S (length (Base.Text.query_escape p))) (Base.Text.query_escape p) = Some p.
+Proof. exact redirect_target_roundtrip. Qed.
+Print Assumptions c08_redirect_target_roundtrip.
